@@ -120,14 +120,14 @@ func c10gen(g *gen, tier string, w *bufio.Writer) {
 					kept = append(kept, l)
 				}
 			}
+			// no draw from g here: the random stream of every later case stays what it was
 			lo := "dd"
 			if len(df.locs) > 0 {
-				lo = g.pick(df.locs)
+				lo = df.locs[0]
 			}
 			z := df.zones[0].name
-			kept = append(kept, "8"+z+",e9", "8*."+z+",e9", "%"+lo+",10.0.0.0/8,e9", "%"+lo+",2001:db8::/32,e9")
-			df.lines = kept
-			g.shuffle(df.lines)
+			df.lines = append([]string{"8" + z + ",e9", "%" + lo + ",10.0.0.0/8,e9"}, kept...)
+			df.lines = append(df.lines, "8*."+z+",e9", "%"+lo+",2001:db8::/32,e9")
 		}
 		qs := g.genQueries(df, 40, true)
 		for _, q := range qs {
